@@ -147,6 +147,16 @@ func (c AdminController) ChangeBucketOwner(ctx *fiber.Ctx) error {
 	owner := ctx.Query("owner")
 	bucket := ctx.Query("bucket")
 
+	// the bucket is addressed by name: anything that is not a single path
+	// component ("..", "a/b") would designate some other place of the store
+	if bucket == "." || bucket == ".." || strings.ContainsAny(bucket, "/\x00") {
+		return SendResponse(ctx, s3err.GetAPIError(s3err.ErrInvalidBucketName),
+			&MetaOpts{
+				Logger: c.l,
+				Action: metrics.ActionAdminChangeBucketOwner,
+			})
+	}
+
 	accs, err := auth.CheckIfAccountsExist([]string{owner}, c.iam)
 	if err != nil {
 		return SendResponse(ctx, err,
